@@ -246,22 +246,25 @@ def _read_parameters(
             annotation = annotation[:-10]
         description = "\n".join(item[1:]).rstrip() if len(item) > 1 else ""
 
+        # What the docstring does not say is taken from the signature, for each name on its own.
+        annotations: dict[str, str | Expr | None] = dict.fromkeys(names, annotation)
+        defaults: dict[str, str | Expr | None] = dict.fromkeys(names, default)
         if annotation is None:
-            # try to use the annotation from the signature
+            found = False
             for name in names:
                 with suppress(AttributeError, KeyError):
-                    annotation = docstring.parent.parameters[name].annotation  # type: ignore[union-attr]
-                    break
-            else:
+                    annotations[name] = docstring.parent.parameters[name].annotation  # type: ignore[union-attr]
+                    found = True
+            if not found:
                 docstring_warning(docstring, new_offset, f"No types or annotations for parameters {names}")
         else:
             annotation = parse_docstring_annotation(annotation, docstring, log_level=LogLevel.debug)
+            annotations = dict.fromkeys(names, annotation)
 
         if default is None:
             for name in names:
                 with suppress(AttributeError, KeyError):
-                    default = docstring.parent.parameters[name].default  # type: ignore[union-attr]
-                    break
+                    defaults[name] = docstring.parent.parameters[name].default  # type: ignore[union-attr]
 
         if warn_unknown_params:
             with suppress(AttributeError):  # For Parameters sections in objects without parameters.
@@ -276,7 +279,8 @@ def _read_parameters(
                         docstring_warning(docstring, new_offset, message)
 
         parameters.extend(
-            DocstringParameter(name, value=default, annotation=annotation, description=description) for name in names
+            DocstringParameter(name, value=defaults[name], annotation=annotations[name], description=description)
+            for name in names
         )
 
     return parameters, new_offset
